@@ -68,17 +68,43 @@ Definition idp_view (c : spcfg) (key : option Z) (rsa signs : bool) (idp_key : Z
      IdPModel.sp_allow_initiated := allow |}.
 
 (* ---------- correspondence-check entry point ---------- *)
-(* IssueInstant case: the SP's clock (ns), the IssueInstant attribute read back
-   from the wire, and this library's IdP's verdicts on that request with its
-   own clock exactly at wire instant + MaxIssueDelay and one nanosecond later *)
-Record iicase := { ii_now : Z; ii_text : string; ii_at_bound : bool; ii_after_bound : bool }.
+(* Element() formats the instant in the time's own location: layout
+   "2006-01-02T15:04:05.999Z07:00" writes the wall clock of that zone followed
+   by "Z" for UTC or the offset "+hh:mm" / "-hh:mm" (zones of whole minutes). *)
+Definition zone_text (off : Z) : string :=
+  if off =? 0 then "Z"
+  else (if off <? 0 then "-" else "+")
+       +++ fixw 2 (Z.abs off / 3600) +++ ":" +++ fixw 2 (Z.abs off mod 3600 / 60).
+Fixpoint drop_last_char (s : string) : string :=
+  match s with
+  | EmptyString => EmptyString
+  | String _ EmptyString => EmptyString
+  | String c r => String c (drop_last_char r)
+  end.
+(* the attribute text for a clock reading [now] in a zone [off] seconds east of UTC *)
+Definition issue_instant_text_zoned (now off : Z) : string :=
+  drop_last_char (format_relaxed (wire_instant now + off * ns_per_s)) +++ zone_text off.
+
+(* instant case: the SP's clock (ns) and its zone offset (s), the IssueInstant
+   attribute read back from the wire of the emitted message, and (for
+   AuthnRequests; true/false otherwise) this library's IdP's verdicts on that
+   request with its own clock exactly at wire instant + MaxIssueDelay and one
+   nanosecond later *)
+Record iicase := { ii_now : Z; ii_off : Z; ii_text : string; ii_at_bound : bool; ii_after_bound : bool }.
 Definition iicase_agree (c : iicase) : bool :=
-  seqb (issue_instant_text (ii_now c)) (ii_text c) && ii_at_bound c && negb (ii_after_bound c).
-(* the IdP reads the written text as the SP's clock cut to the millisecond, and
-   accepts within MaxIssueDelay of it *)
+  seqb (issue_instant_text_zoned (ii_now c) (ii_off c)) (ii_text c) && ii_at_bound c && negb (ii_after_bound c).
+(* whatever zone the clock is in, the written text denotes (as an INSTANT) the
+   SP's clock cut to the millisecond, and the IdP accepts within MaxIssueDelay of it *)
 Definition iicase_spec (c : iicase) : bool :=
   match parse_relaxed (ii_text c) with
   | Ok t => (t =? wire_instant (ii_now c)) && (t <=? ii_now c) && (ii_now c <? t + ns_per_ms)
   | _ => false
-  end && ii_at_bound c.
+  end && ii_at_bound c && negb (ii_after_bound c).
 Definition check_iicases := check_cases iicase_agree iicase_spec.
+
+Example issue_instant_zoned_examples :
+  issue_instant_text_zoned 1715000000123456789 0 = issue_instant_text 1715000000123456789
+  /\ issue_instant_text_zoned 1715000000123456789 19800 = "2024-05-06T18:23:20.123+05:30"
+  /\ issue_instant_text_zoned 1715000000000000001 (-18000) = "2024-05-06T07:53:20-05:00"
+  /\ parse_relaxed "2024-05-06T18:23:20.123+05:30" = Ok (wire_instant 1715000000123456789).
+Proof. vm_compute. repeat split; reflexivity. Qed.
